@@ -122,7 +122,7 @@ def run_cfg(cfg, rec):
 
 
 def explore(tier, seed):
-    return core.pmap(run_cfg, s1.configs(tier) + s1.long_configs(tier) + s1.bign_configs(tier) + s1.vlong_configs(tier) + s1.near_tie_configs(tier), seed, progress="C05")
+    return core.pmap(run_cfg, s1.configs(tier) + s1.long_configs(tier) + s1.bign_configs(tier) + s1.vlong_configs(tier) + s1.near_tie_configs(tier) + s1.ulp_tie_configs(tier), seed, progress="C05")
 
 
 def run_case(case):
